@@ -255,6 +255,8 @@ impl<T> Queue<T> {
                 Ordering::Acquire,
             ) {
                 Ok(_) => {
+                    #[cfg(may_verif)]
+                    crate::verif::label("mpsc.push.claimed", self as *const _ as usize);
                     // set the data
                     block.set(id, v);
                     // the block may be released here by the consumer,
